@@ -25,6 +25,44 @@ def _ancestors(node):
         n = getattr(n, "parent", None)
 
 
+def _partial_ops_of_repo_function(repo, mod, name):
+    """[text] of the operations in the body of the repository function *name* (as seen from *mod*) that can raise: calls that are not in the
+    table of total functions, subscripts, arithmetic, raise.  None if *name* is not a function of the repository."""
+    got = repo.lookup(mod, name)
+    if not got or not isinstance(got[1], ast.FunctionDef):
+        return None
+    fn = got[1]
+    out = []
+    for x in ast.walk(fn):
+        if isinstance(x, ast.Call):
+            f = norm(x.func)
+            if f in TOTAL_FUNCS and f not in ("CompileOptions", "Compiler") or isinstance(x.func, ast.Attribute) and x.func.attr in TOTAL_METHODS or f in ("print", "logger.info", "logger.debug"):
+                continue
+            if f == "time.time" or f.startswith("logger."):
+                continue
+            out.append(norm(x)[:40])
+        elif isinstance(x, ast.Subscript) and isinstance(x.ctx, ast.Load) and not isinstance(getattr(x, "parent", None), (ast.AnnAssign, ast.arg)) \
+                and not _in_annotation(x):
+            out.append(norm(x)[:40])
+        elif isinstance(x, ast.Raise):
+            out.append("raise")
+    return out
+
+
+def _in_annotation(node):
+    p = getattr(node, "parent", None)
+    c = node
+    while p is not None:
+        if isinstance(p, ast.arg) and p.annotation is c:
+            return True
+        if isinstance(p, ast.AnnAssign) and p.annotation is c:
+            return True
+        if isinstance(p, (ast.FunctionDef, ast.AsyncFunctionDef)) and p.returns is c:
+            return True
+        c, p = p, getattr(p, "parent", None)
+    return False
+
+
 def catch_all(h: ast.ExceptHandler):
     if h.type is None:
         return True
@@ -201,7 +239,14 @@ def r10a(repo, chk):
                 elif f in TOTAL_FUNCS or (isinstance(c.func, ast.Attribute) and c.func.attr in TOTAL_METHODS):
                     if f == "CompileOptions" and c.keywords and any(k.arg is None for k in c.keywords):
                         chk.assume("compile_code(options=dict): the dict's keys are CompileOptions field names (stated input domain)")
-                    chk.ok("R10.a", key, {"callee": f})
+                    # a function of the repository that the table calls total: its body must still be (assignments of its arguments, nothing
+                    # that can raise for an argument of any type)
+                    risky = _partial_ops_of_repo_function(repo, cm, f) if isinstance(c.func, ast.Name) else None
+                    if risky:
+                        chk.bad("R10.a", key, f"{f} is called outside any catch-all try, and its body does {risky}: for some values of the argument "
+                                              f"(a 'compact' option that is not a bool, ...) it raises and the exception leaves compile_code", {"callee": f}, where)
+                    else:
+                        chk.ok("R10.a", key, {"callee": f})
                 elif isinstance(c.func, ast.Attribute) and c.func.attr == "compile" and isinstance(c.func.value, ast.Call) and norm(c.func.value.func) == "Compiler":
                     chk.ok("R10.a", key, {"callee": "Compiler.compile (containment checked separately)"})
                 elif isinstance(c.func, ast.Attribute) and c.func.attr in ("index", "rindex") and c.args and isinstance(c.args[0], ast.Constant) and isinstance(c.args[0].value, str) \
@@ -309,6 +354,29 @@ def r10a(repo, chk):
                             chk.judge("R10.a", f"compiler:Compiler.compile:handler {hname} computes with {tx} under a None test", okn,
                                       f"{norm(op_)[:60]} computes with {tx}, which is None for some errors (e.g. a NUL byte in the source): the handler itself raises "
                                       f"TypeError and the error escapes compile_code", None, f"{cm.path}:{op_.lineno}")
+            # positions reported for a SyntaxError: lineno / offset point into the text; end_lineno / end_offset are 0, -1 or None for several
+            # kinds of errors (unclosed bracket, missing block, trailing backslash) and may only be passed on after they were looked at
+            if h.name:
+                from .shared import expr_guards
+                for a in ast.walk(h):
+                    if isinstance(a, ast.Attribute) and a.attr in ("end_lineno", "end_offset") and isinstance(a.ctx, ast.Load) and norm(a).startswith(h.name + ".") \
+                            and "error" in norm(a):
+                        ids = [x.id for x in ccfg.nodes_of(a)]
+                        g = []
+                        for i in ids:
+                            g += [(t, p) for t, p in ccfg.guards(i) if isinstance(t, ast.expr)]
+                        g += list(expr_guards(a, h))
+                        tx = norm(a)
+                        looked_at = any(isinstance(t, ast.Compare) and tx in norm(t) and any(isinstance(o, (ast.Gt, ast.GtE, ast.Lt, ast.LtE)) for o in t.ops) for t, p in g)
+                        # used inside a test itself is not passing it on
+                        in_test = any(isinstance(par, (ast.Compare, ast.If, ast.IfExp)) and not (isinstance(par, ast.IfExp) and (par.body is a or par.orelse is a))
+                                      for par in [getattr(a, "parent", None)])
+                        if in_test:
+                            continue
+                        chk.judge("R10.a", f"compiler:Compiler.compile:handler {hname} passes {tx} on only after a range check", looked_at,
+                                  f"{tx} goes into the verdict as it is: for an unclosed bracket, a block header without body or a trailing backslash CPython reports 0 or -1 "
+                                  f"there, the reported range ends before it starts or has a negative column, which is not a position inside the submitted text",
+                                  None, f"{cm.path}:{a.lineno}")
             # optional parts of the exception are dereferenced only under a guard
             if h.name:
                 for a in ast.walk(h):
